@@ -1,0 +1,66 @@
+//! Verification hooks. Compiled only with `--cfg deltio_verif`; without the flag
+//! neither this module nor any of its call sites exist.
+//!
+//! * `point(name).await` is a schedule point: a thread-local controller installed
+//!   by a test harness decides how many times the calling task yields to the
+//!   scheduler there (none when no controller is installed). Points are only
+//!   placed where no lock is held.
+//! * `fanout_order` makes the order in which a publish is fanned out to the
+//!   attached subscriptions a function of a harness-provided seed instead of the
+//!   (per-process random) `HashMap` iteration order.
+use std::cell::RefCell;
+
+type Controller = Box<dyn FnMut(&'static str) -> u32>;
+
+thread_local! {
+    static CONTROLLER: RefCell<Option<Controller>> = const { RefCell::new(None) };
+    static FANOUT_SEED: RefCell<Option<u64>> = const { RefCell::new(None) };
+}
+
+/// Installs the schedule-point controller for the current thread.
+pub fn install_controller(controller: Controller) {
+    CONTROLLER.with(|c| *c.borrow_mut() = Some(controller));
+}
+
+/// Removes the schedule-point controller of the current thread.
+pub fn clear_controller() {
+    CONTROLLER.with(|c| *c.borrow_mut() = None);
+}
+
+/// Sets (or clears) the fan-out permutation seed of the current thread.
+pub fn set_fanout_seed(seed: Option<u64>) {
+    FANOUT_SEED.with(|s| *s.borrow_mut() = seed);
+}
+
+/// A schedule point: yields to the scheduler as many times as the installed
+/// controller asks for.
+pub async fn point(name: &'static str) {
+    let yields = CONTROLLER.with(|c| match c.borrow_mut().as_mut() {
+        Some(controller) => controller(name),
+        None => 0,
+    });
+    for _ in 0..yields {
+        tokio::task::yield_now().await;
+    }
+}
+
+/// Orders the items canonically and then, when a seed is set, permutes them
+/// with a small deterministic generator derived from that seed.
+pub fn fanout_order<T: Ord>(mut items: Vec<T>) -> Vec<T> {
+    items.sort();
+    if let Some(seed) = FANOUT_SEED.with(|s| *s.borrow()) {
+        let mut state = seed ^ 0x9E37_79B9_7F4A_7C15;
+        let mut next = || {
+            state = state.wrapping_add(0x9E37_79B9_7F4A_7C15);
+            let mut z = state;
+            z = (z ^ (z >> 30)).wrapping_mul(0xBF58_476D_1CE4_E5B9);
+            z = (z ^ (z >> 27)).wrapping_mul(0x94D0_49BB_1331_11EB);
+            z ^ (z >> 31)
+        };
+        for i in (1..items.len()).rev() {
+            let j = (next() % (i as u64 + 1)) as usize;
+            items.swap(i, j);
+        }
+    }
+    items
+}
